@@ -327,3 +327,32 @@ claim(
     'nondeterminism-source inventory + def-use walk to sinks (taint); '
     'syntactic set typing; latch typestate shared with C05',
     'DESIGN.md §4 C18')
+
+claim(
+    'C04', 'other',
+    'Error discipline decided over the resolved call graph: (R1) every call '
+    'into mutator code that can run in the main process (protocol calls, '
+    'consumption of their generators, apply_simp) lies under an "except '
+    'Exception" handler that neither re-raises nor exits; (R2) in the '
+    'main-unguarded zone (functions reachable from cli.ddsmt_main without '
+    'crossing such a handler; ~60 functions) every constant subscript on an '
+    's-expression is covered by a dominating length fact (must-facts + '
+    'predicate summaries re-derived from smtlib/nodes on each run), '
+    'get_ident() by has_ident(), fixed-arity unpacking by len == n, no '
+    'possibly-None local is dereferenced, the parser stack is not popped '
+    'when empty, int()/float() of leaf text have a lexical guard, asserts '
+    'on input data are implied by a dominating test; (R3) main() returns 0 '
+    'only after ddsmt_main() completed, every handled failure returns '
+    'non-zero, all other sys.exit codes are non-zero; (R4) every entry '
+    'point passes main()\'s value to sys.exit; (R5) user-supplied paths '
+    'are validated before raising use; (R6) no handler swallows '
+    'KeyboardInterrupt.',
+    'Not decided: exceptions of the standard library on resources (ENOSPC, '
+    'dead workers, undecodable bytes), MemoryError in workers, recursion '
+    'depth of Node.__str__. Node typing of receivers is name/flow based '
+    '(parameters node/cmd/expr/sort..., elements of expression lists). '
+    'Trusted: CPython ast, /verif/sa call graph (resolved/unresolved counts '
+    'are printed and floored).',
+    'call-graph zones + handler coverage; must-dataflow of guard facts with '
+    're-derived predicate summaries (shape oracle); CFG of main()',
+    'DESIGN.md §4 C04')
